@@ -511,6 +511,19 @@ class Folder:
                 if lv is not None and self.kind == "decode" and len(items) > before:
                     self.env[lv] = ("ref", len(items) - 1)
             return
+        if k in ("CXXConstructExpr", "CXXTemporaryObjectExpr") and self.kind == "decode" and e.get("listinit") and \
+                sum(1 for a in (e.get("args") or []) if is_codec_call(strip(a, casts=True))) == len(e.get("args") or []) and e.get("args"):
+            # `T{Codec<A>::decode_arg(buffer), Codec<B>::decode_arg(buffer), ...}`: the elements of a braced initialiser list are
+            # evaluated from left to right (a parenthesised argument list is not: it is left undecided below)
+            for i_, a in enumerate(e["args"]):
+                before = len(items)
+                self._expr_stmt(strip(a, casts=True), items)
+                if len(items) > before and items[-1].kind in ("SUB", "SUBF") and not items[-1].des:
+                    items[-1].des = des_of(("tuple_elem", i_))        # the i-th element of the object being built
+            return
+        if k in ("CXXConstructExpr", "CXXTemporaryObjectExpr") and self.kind == "decode" and not e.get("listinit") and \
+                sum(1 for a in (e.get("args") or []) if any(is_codec_call(x) for x in walk(a))) > 1:
+            raise Unfoldable("several decode_arg calls as parenthesised constructor arguments (unspecified evaluation order) at %s" % e.get("loc"))
         if k in ("CallExpr", "CXXMemberCallExpr", "CXXOperatorCallExpr", "CXXConstructExpr", "CXXTemporaryObjectExpr"):
             c = e.get("callee") or ""
             cd = codec_of(c)
